@@ -482,7 +482,10 @@ struct Out {
     refold: Vec<(String, String)>,
 }
 
-const DROP_TRAIT_IMPLS: &[&str] = &["Display", "Error", "FusedIterator", "Debug", "Clone", "Hash"];
+// hand-written impls of these traits are outside the verified text (their token hash is reported; for the
+// comparison/clone traits the contracts assume the *derived* meaning, and a type that no longer derives them
+// is reported by the splicer)
+const DROP_TRAIT_IMPLS: &[&str] = &["Display", "Error", "FusedIterator", "Debug", "Clone", "Hash", "PartialEq", "Eq", "PartialOrd", "Ord", "Copy"];
 const TO_INHERENT: &[&str] = &["Iterator", "DoubleEndedIterator"];
 // (self type, fn) pairs that are outside the claim; see DESIGN.md §2.1
 const DROP_FNS: &[(&str, &str)] = &[("NodeId", "debug_pretty_print"), ("Arena", "par_iter"), ("NodeError", "as_str")];
@@ -674,6 +677,16 @@ impl<'a> VisitMut for CfgStrip<'a> {
         visit_mut::visit_expr_struct_mut(self, st);
     }
     fn visit_expr_mut(&mut self, e: &mut Expr) {
+        // `cfg!(pred)` is the boolean value of the predicate for this feature set
+        if let Expr::Macro(m) = e {
+            if m.mac.path.is_ident("cfg") && m.mac.tokens.to_string().contains("feature") {
+                let meta: Meta = m.mac.parse_body().unwrap_or_else(|_| die("cfg! argument"));
+                let v = self.cfg.eval_meta(&meta);
+                self.fired += 1;
+                *e = if v { parse_quote!(true) } else { parse_quote!(false) };
+                return;
+            }
+        }
         // an expression in operand position that is configured out cannot simply be removed
         if let Some(a) = expr_attrs(e) {
             if Self::has_cfg(a) {
